@@ -403,6 +403,34 @@ def run_shard(shard, tier, seed):
                 break
             try:
                 r = rng.random()
+                if rng.random() < 0.12:
+                    # guiding types with subtype constraints (C10's generator): valid encodings, encodings of
+                    # neighbour values that violate one constraint or lack a mandatory member, and mutations of both -
+                    # what a constraint check raises on its way out of the decoder must be a library error too
+                    from . import c10
+                    mc = c10.make_case(rng, tier)
+                    if mc is None:
+                        continue
+                    Tc, vc, cons = mc
+                    try:
+                        sch = c10.cschema(Tc, cons)
+                        inputs = [R.der(Tc, vc), R.ber_variant(Tc, vc, rng)[0]]
+                        bv = c10.break_value(rng, Tc, vc, cons)
+                        if bv is not None:
+                            inputs.append(R.der(Tc, bv[0]))
+                            inputs.append(R.ber_variant(Tc, bv[0], rng)[0])
+                        dm = c10.drop_mandatory(rng, Tc, vc)
+                        if dm is not None:
+                            inputs.append(R.der(Tc, dm))
+                    except Exception:
+                        continue
+                    inputs += [C.mutate(rng, x)[1] for x in inputs[:3]]
+                    token = ('constrained', Tc, tuple(sorted(cons.items())))
+                    for data in inputs:
+                        if len(data) <= 1500:
+                            run_input(res, sc, data, token, sch, 'constrained-type')
+                    res.see('constrained-type-cases')
+                    continue
                 if r < 0.62:
                     T, v = C.gen_case(rng, tier, any_maker=R.ber_any_maker)
                     e = R.ber_variant(T, v, rng)[0] if rng.random() < 0.5 else \
@@ -457,7 +485,11 @@ def replay(case):
     sc = M.StepCounter()
     sc.start()
     try:
-        schema = None if T is None else (CUSTOM_SPECS[T]() if isinstance(T, str) else B.schema(T))
+        if isinstance(T, (tuple, list)) and T and T[0] == 'constrained':
+            from . import c10
+            schema = c10.cschema(T[1], dict(T[2]))
+        else:
+            schema = None if T is None else (CUSTOM_SPECS[T]() if isinstance(T, str) else B.schema(T))
         data = bytes.fromhex(hexdata)
         run_input(res, sc, data, T, schema, 'replay', strlimit=data in huge_integer_inputs())
     finally:
